@@ -34,6 +34,20 @@ class SInt(SV):
     return f'SInt({self.z})'
 
 
+class SOptInt(SV):
+  """An `Optional[int]`-like value without forking: the integer `z` is
+  meaningful iff `present`; otherwise the value is None (or, for `kind` =
+  'non-int', some non-integer object)."""
+  __slots__ = ('z', 'present')
+
+  def __init__(self, z, present):
+    self.z = z
+    self.present = present
+
+  def __repr__(self):
+    return f'SOptInt({self.z} if {self.present})'
+
+
 class SReal(SV):
   """A float treated as a real (A-FLOAT: no NaN, no rounding)."""
   __slots__ = ('z',)
